@@ -40,6 +40,12 @@ assert not [l for l in o.splitlines() if not l.startswith('??')], 'repo not clea
 rc, o = sh(['git', '-C', '/repo', 'apply', patch])
 assert rc == 0, o
 out['checks'] = {}
+# the evidence files describe the unchanged tree: keep them across the run against the changed one
+saved_evidence = {}
+for cid in [prop] + extra:
+    ep = '/verif/evidence/%s.json' % cid
+    if os.path.exists(ep):
+        saved_evidence[ep] = open(ep).read()
 try:
     for cid in [prop] + extra:
         t0 = time.time()
@@ -50,6 +56,8 @@ try:
                               'first_detail': next((l[:400] for l in o.splitlines() if l.startswith('violation: ')), None)}
 finally:
     sh(['git', '-C', '/repo', 'checkout', '--', '.'])
+    for ep, text in saved_evidence.items():
+        open(ep, 'w').write(text)
 rc, o = sh(['git', '-C', '/repo', 'status', '--short'])
 out['repo_clean_after'] = not [l for l in o.splitlines() if not l.startswith('??')]
 dst = os.path.join('/verif/seeded', name)
